@@ -112,7 +112,11 @@ func c01Property(rt *rapid.T, ev *evid.Rec, o machineOpts, faults bool) {
 		faultBudget = rapid.IntRange(0, 4).Draw(rt, "nfaults")
 	}
 	var pending *sim.Fault
+	pendingKind := "" // "" = the next request, else the next request of this kind
 	w.SetHook(func(s *SourceCfg, n *sim.Node, ri sim.ReqInfo) *sim.Fault {
+		if pending == nil || (pendingKind != "" && ri.Kind != pendingKind) {
+			return nil
+		}
 		f := pending
 		pending = nil
 		return f
@@ -139,7 +143,13 @@ func c01Property(rt *rapid.T, ev *evid.Rec, o machineOpts, faults bool) {
 		case 3:
 			if faultBudget > 0 {
 				faultBudget--
-				switch rapid.IntRange(0, 3).Draw(rt, "faultkind") {
+				pendingKind = ""
+				switch rapid.IntRange(0, 5).Draw(rt, "faultkind") {
+				case 4, 5:
+					// answered by a replica that lags behind the head the task was told about
+					pending = &sim.Fault{Lag: rapid.IntRange(1, 4).Draw(rt, "lag")}
+					pendingKind = rapid.SampledFrom([]string{"logs", "logs", "receipts", "blocks", "headers", "traces"}).Draw(rt, "lagkind")
+					m.label("lagging-replica")
 				case 0:
 					pending = &sim.Fault{Status: 503}
 				case 1:
@@ -149,7 +159,7 @@ func c01Property(rt *rapid.T, ev *evid.Rec, o machineOpts, faults bool) {
 				default:
 					pending = &sim.Fault{Truncate: rapid.IntRange(1, 60).Draw(rt, "trunc")}
 				}
-				m.logf("schedule rpc fault %+v", *pending)
+				m.logf("schedule rpc fault %+v on %q", *pending, pendingKind)
 				m.label("rpc-fault")
 				break
 			}
